@@ -37,8 +37,23 @@ EXTRA5 = {
  'C19': ' Fifth session: in-place overwrites with values that do not fit (2^n, 2^n+1, -1, -2^(n-1), -2^n) are refused and change nothing, for every width and offset.',
  'C20': ' Fifth session: 0..6 Table A entries; five equivalent section-3 spellings of the dictionary layout; scans with the decoder\'s options handed through (as decode -m does).',
 }
+EXTRA7 = {
+ 'C01': ' 203 definition lists that hold a replication; one element with associated fields of two widths in consecutive messages.',
+ 'C03': ' New reference values on, just inside and just outside what 203YYY holds (inside: exact, outside: refused); whole-number inputs at a negative effective scale.',
+ 'C04': ' Section 2 local parts that stop inside an octet; section-0 totals declared wrongly on the decoder side.',
+ 'C05': ' Templates that end inside an operator scope as compressed / uncompressed pairs; associated fields of two widths on one element.',
+ 'C06': ' Hand-laid-out templates that end inside 201 / 202 / 207 / 208 / 204 / 203 with the same element before and under the operator.',
+ 'C08': ' The hand-laid-out families (same layout, bitmaps that select other elements; static marker layout) compiled against not compiled.',
+ 'C12': ' The all-zero descriptor among the undefined ids.',
+ 'C14': ' The all-zero descriptor among the undefined ids.',
+ 'C15': ' A path handed out earlier must stay what it was after the parser parsed another expression.',
+ 'C17': ' Present-but-empty section 2; master table versions that are not installed.',
+ 'C18': ' Literals that run over a line end; hand-laid-out level-0 scripts whose first selected subset has no match.',
+ 'C19': ' Oversized values up to 2^(n+64).',
+ 'C20': ' Definition messages with Table D entries only and with Table B entries only (re-defining a member of an earlier sequence); replications nested three deep after definitions.',
+}
 for k, v in EXTRA5.items():
-    EXTRA[k] = EXTRA.get(k, '') + v
+    EXTRA[k] = EXTRA.get(k, '') + v + EXTRA7.get(k, '')
 checks = []
 for pid in ids:
     if pid not in CHECKS:
@@ -72,7 +87,7 @@ m = {
                  'kind_free_text': 'Hypothesis-driven generated search + exhaustive small-scope enumeration against an independent reference model (refbufr), sharded over processes; own time-boxed choice-sequence shrinker; atheris (libFuzzer) on raw strings for the two character state machines and, through a byte-backed choice sequence, on the structured generators of 16 checks'}],
     'checks': checks,
     'not_applicable': na,
-    'notes': 'See DESIGN.md (sections 13-18: as built, defects and findings, sensitivity, third to fifth session). Open known findings and the repaired defects (22 fix: commits in /repo) are listed in /verif/known_findings.txt; probes and regression inputs in /verif/corpus/; 240 independently written breaking changes (six rounds) in /verif/seeded/, each with the check that kills it recorded in its meta.json; planted mutants and the reverts of every repair in /verif/mutants/ (results in RESULTS.json). No source hooks are needed: every observation point is public API.',
+    'notes': 'See DESIGN.md (sections 13-18: as built, defects and findings, sensitivity, third to fifth session). Open known findings and the repaired defects (22 fix: commits in /repo) are listed in /verif/known_findings.txt; probes and regression inputs in /verif/corpus/; 280 independently written breaking changes (seven rounds) in /verif/seeded/, each with the check that kills it recorded in its meta.json; planted mutants and the reverts of every repair in /verif/mutants/ (results in RESULTS.json). No source hooks are needed: every observation point is public API.',
 }
 json.dump(m, open(os.path.join(HERE, 'MANIFEST.json'), 'w'), indent=1)
 try:
